@@ -389,4 +389,351 @@ theorem deliverFrames_delivers {c : Conn} (h : Inv c) (hb : c.broken = false) (f
         omega
       exact hdelF g hg' r (hkeep _ r hm hne) (by rw [hother r hr]; exact hw)
 
+/-! ### the wire -/
+
+/-- What the reader leaves in the buffer is what remains after a number of whole frames: the bytes it consumed are
+the exact encodings of frames. -/
+theorem reader_rest (b : List UInt8) (c : Conn) (e : Bool) :
+    ∃ fs, b = encodeAll fs ++ (reader c b e).2 := by
+  induction b using readFrames.induct generalizing c with
+  | case1 bytes f rest hf hlt fs t hfs ih =>
+    cases hb : c.broken with
+    | true => rw [reader_broken hb]; exact ⟨[], by simp [encodeAll]⟩
+    | false =>
+      rw [reader_frame hb e hf]
+      obtain ⟨fs', hfs'⟩ := ih (deliverFrame c f)
+      refine ⟨f :: fs', ?_⟩
+      have := (readFrame_exact bytes f rest hf).1
+      rw [this]
+      simp only [encodeAll, List.flatMap_cons, List.append_assoc]
+      congr 1
+  | case2 bytes hf =>
+    have hstop : ∀ f rest, readFrame bytes ≠ .frame f rest := by intro f rest; rw [hf]; simp
+    cases hb : c.broken with
+    | true => rw [reader_broken hb]; exact ⟨[], by simp [encodeAll]⟩
+    | false => rw [reader_stop hb e hstop]; exact ⟨[], by simp [encodeAll]⟩
+  | case3 bytes n hf =>
+    have hstop : ∀ f rest, readFrame bytes ≠ .frame f rest := by intro f rest; rw [hf]; simp
+    cases hb : c.broken with
+    | true => rw [reader_broken hb]; exact ⟨[], by simp [encodeAll]⟩
+    | false => rw [reader_stop hb e hstop]; exact ⟨[], by simp [encodeAll]⟩
+  | case4 bytes m l hf =>
+    have hstop : ∀ f rest, readFrame bytes ≠ .frame f rest := by intro f rest; rw [hf]; simp
+    cases hb : c.broken with
+    | true => rw [reader_broken hb]; exact ⟨[], by simp [encodeAll]⟩
+    | false => rw [reader_stop hb e hstop]; exact ⟨[], by simp [encodeAll]⟩
+  | case5 bytes w hf =>
+    have hstop : ∀ f rest, readFrame bytes ≠ .frame f rest := by intro f rest; rw [hf]; simp
+    cases hb : c.broken with
+    | true => rw [reader_broken hb]; exact ⟨[], by simp [encodeAll]⟩
+    | false => rw [reader_stop hb e hstop]; exact ⟨[], by simp [encodeAll]⟩
+
+/-- Frame alignment is an invariant of the wire: at any time the bytes received so far are a number of whole,
+exactly encoded frames followed by what is still buffered. -/
+def Aligned (w : Wire) : Prop := ∃ fs, w.received = encodeAll fs ++ w.inbuf
+
+theorem encodeAll_append (a b : List Frame) : encodeAll (a ++ b) = encodeAll a ++ encodeAll b := by
+  simp [encodeAll]
+
+theorem aligned_step {w : Wire} (h : Aligned w) (e : WEv) : Aligned (wstep w e) := by
+  obtain ⟨fs, hfs⟩ := h
+  cases e with
+  | bytes bs =>
+    simp only [wstep]
+    split
+    · exact ⟨fs, hfs⟩
+    · obtain ⟨fs', hfs'⟩ := reader_rest (w.inbuf ++ bs) w.c false
+      refine ⟨fs ++ fs', ?_⟩
+      show w.received ++ bs = encodeAll (fs ++ fs') ++ (reader w.c (w.inbuf ++ bs) false).2
+      rw [encodeAll_append, List.append_assoc, ← hfs', hfs, List.append_assoc]
+  | close =>
+    simp only [wstep]
+    split
+    · exact ⟨fs, hfs⟩
+    · obtain ⟨fs', hfs'⟩ := reader_rest w.inbuf w.c true
+      refine ⟨fs ++ fs', ?_⟩
+      show w.received = encodeAll (fs ++ fs') ++ (reader w.c w.inbuf true).2
+      rw [encodeAll_append, List.append_assoc, ← hfs', hfs]
+  | conn e => exact ⟨fs, hfs⟩
+
+theorem aligned_run {w : Wire} (h : Aligned w) (evs : List WEv) : Aligned (wrun w evs) := by
+  unfold wrun
+  induction evs generalizing w with
+  | nil => exact h
+  | cons e rest ih => exact ih (aligned_step h e)
+
+theorem inv_wstep {w : Wire} (h : Inv w.c) (e : WEv) : Inv (wstep w e).c := by
+  cases e with
+  | bytes bs => simp only [wstep]; split; exact h; exact inv_reader h _ _
+  | close => simp only [wstep]; split; exact h; exact inv_reader h _ _
+  | conn e => exact h.step e
+
+theorem inv_wrun {w : Wire} (h : Inv w.c) (evs : List WEv) : Inv (wrun w evs).c := by
+  unfold wrun
+  induction evs generalizing w with
+  | nil => exact h
+  | cons e rest ih => exact ih (inv_wstep h e)
+
+theorem readFrame_bad_append (a b : List UInt8) (w : BadHeader) (h : readFrame a = .bad w) :
+    readFrame (a ++ b) = .bad w := by
+  unfold readFrame at h
+  split at h
+  · cases h
+  · rename_i v fl s1 s0 op l3 l2 l1 l0 tl
+    simp only [List.cons_append, readFrame]
+    split at h
+    · rename_i h1; simp only [h1, if_true]; exact h
+    · rename_i h1
+      simp only [h1, if_false]
+      split at h
+      · rename_i h2; simp only [h2, if_true]; exact h
+      · rename_i h2
+        simp only [h2, if_false]
+        split at h
+        · rename_i h3; simp only [h3, if_true]; exact h
+        · simp only at h
+          split at h <;> cases h
+  · cases h
+
+/-- How the response bytes are cut into chunks does not matter: feeding `a` and then `b` (nothing else happening in
+between) leaves the same state as feeding `a ++ b`. -/
+theorem reader_chunks (a : List UInt8) (b : List UInt8) (c : Conn) (e : Bool) :
+    reader (reader c a false).1 ((reader c a false).2 ++ b) e = reader c (a ++ b) e := by
+  induction a using readFrames.induct generalizing c with
+  | case1 bytes f rest hf hlt fs t hfs ih =>
+    cases hb : c.broken with
+    | true => rw [reader_broken hb]
+    | false =>
+      obtain ⟨hex, hwf⟩ := readFrame_exact bytes f rest hf
+      have hf2 : readFrame (bytes ++ b) = .frame f (rest ++ b) := by
+        rw [hex, List.append_assoc]; exact readFrame_encode f hwf _
+      rw [reader_frame hb false hf, reader_frame hb e hf2]
+      exact ih (deliverFrame c f)
+  | case2 bytes hf =>
+    have hstop : ∀ f rest, readFrame bytes ≠ .frame f rest := by intro f rest; rw [hf]; simp
+    cases hb : c.broken with
+    | true => rw [reader_broken hb]
+    | false => rw [reader_stop hb false hstop, hf]; rfl
+  | case3 bytes n hf =>
+    have hstop : ∀ f rest, readFrame bytes ≠ .frame f rest := by intro f rest; rw [hf]; simp
+    cases hb : c.broken with
+    | true => rw [reader_broken hb]
+    | false => rw [reader_stop hb false hstop, hf]; rfl
+  | case4 bytes m l hf =>
+    have hstop : ∀ f rest, readFrame bytes ≠ .frame f rest := by intro f rest; rw [hf]; simp
+    cases hb : c.broken with
+    | true => rw [reader_broken hb]
+    | false => rw [reader_stop hb false hstop, hf]; rfl
+  | case5 bytes w hf =>
+    have hstop : ∀ f rest, readFrame bytes ≠ .frame f rest := by intro f rest; rw [hf]; simp
+    cases hb : c.broken with
+    | true => rw [reader_broken hb]
+    | false =>
+      rw [reader_stop hb false hstop, hf]
+      have hbr : (readerStop c (.bad w) false).broken = true := break_sets_broken _ _
+      show reader (readerStop c (.bad w) false) (bytes ++ b) e = _
+      rw [reader_broken hbr]
+      have hstop2 : ∀ f rest, readFrame (bytes ++ b) ≠ .frame f rest := by
+        intro f rest; rw [readFrame_bad_append bytes b w hf]; simp
+      rw [reader_stop hb e hstop2, readFrame_bad_append bytes b w hf]
+      rfl
+
+/-! ### the reader of a connection WITH an event sender (`readerEv`) -/
+
+theorem readerEv_broken (ok : Frame → Bool) (ch : EvChan) {c : Conn} (hb : c.broken = true) (b : List UInt8)
+    (e : Bool) : readerEv ok ch c b e = (c, b, ch) := by
+  rw [readerEv]; simp [hb]
+
+theorem readerEv_frame (ok : Frame → Bool) (ch : EvChan) {c : Conn} (hb : c.broken = false) {b rest : List UInt8}
+    {f : Frame} (e : Bool) (h : readFrame b = .frame f rest) :
+    readerEv ok ch c b e =
+      match deliverFrameEv ok ch c f with
+      | none => (c, b, ch)
+      | some (c', ch') => readerEv ok ch' c' rest e := by
+  rw [readerEv]
+  simp only [hb, Bool.false_eq_true, if_false]
+  split
+  · rename_i f' rest' hf'
+    rw [h] at hf'
+    cases hf'; rfl
+  · rename_i hne
+    exact absurd h (hne f rest)
+
+theorem readerEv_stop (ok : Frame → Bool) (ch : EvChan) {c : Conn} (hb : c.broken = false) {b : List UInt8} (e : Bool)
+    (h : ∀ f rest, readFrame b ≠ .frame f rest) : readerEv ok ch c b e = (readerStop c (readFrame b) e, b, ch) := by
+  rw [readerEv]
+  simp only [hb, Bool.false_eq_true, if_false]
+
+/-- The reader is PARKED on a full event channel: exactly the case in which `deliverFrameEv` answers `none`. -/
+theorem deliverFrameEv_none {ok : Frame → Bool} {ch : EvChan} {c : Conn} {f : Frame}
+    (h : deliverFrameEv ok ch c f = none) :
+    f.stream = -1 ∧ c.broken = false ∧ ok f = true ∧ ch.closed = false ∧ ch.room = 0 := by
+  unfold deliverFrameEv at h
+  split at h
+  · rename_i hs
+    split at h
+    · cases h
+    · rename_i hb
+      split at h
+      · cases h
+      · rename_i hok
+        split at h
+        · cases h
+        · rename_i hcl
+          split at h
+          · rename_i hr
+            exact ⟨hs, by simpa using hb, by simpa using hok, by simpa using hcl, hr⟩
+          · cases h
+  · cases h
+
+theorem inv_deliverFrameEv {ok : Frame → Bool} {ch ch' : EvChan} {c c' : Conn} (h : Inv c) {f : Frame}
+    (hd : deliverFrameEv ok ch c f = some (c', ch')) : Inv c' := by
+  unfold deliverFrameEv at hd
+  split at hd
+  · split at hd
+    · cases hd; exact h
+    · split at hd
+      · cases hd; exact h.step _
+      · split at hd
+        · cases hd; exact h.step _
+        · split at hd
+          · cases hd
+          · cases hd; exact h
+  · cases hd; exact inv_deliverFrame h f
+
+theorem inv_readerStop {c : Conn} (h : Inv c) (r : ReadRes) (e : Bool) : Inv (readerStop c r e) := by
+  unfold readerStop
+  cases r <;> simp only <;> (try split) <;> first | exact h | exact h.step _
+
+/-- The invariant of the connection model holds along the reader of a connection with an event sender. -/
+theorem inv_readerEv (ok : Frame → Bool) (e : Bool) :
+    ∀ (n : Nat) (b : List UInt8), b.length ≤ n → ∀ (ch : EvChan) (c : Conn), Inv c → Inv (readerEv ok ch c b e).1 := by
+  intro n
+  induction n with
+  | zero =>
+    intro b hn ch c h
+    cases hb : c.broken with
+    | true => rw [readerEv_broken ok ch hb]; exact h
+    | false =>
+      have hstop : ∀ f rest, readFrame b ≠ .frame f rest := by
+        intro f rest hf; have := readFrame_rest_lt hf; omega
+      rw [readerEv_stop ok ch hb e hstop]; exact inv_readerStop h _ _
+  | succ n ih =>
+    intro b hn ch c h
+    cases hb : c.broken with
+    | true => rw [readerEv_broken ok ch hb]; exact h
+    | false =>
+      by_cases hfr : ∃ f rest, readFrame b = .frame f rest
+      · obtain ⟨f, rest, hf⟩ := hfr
+        rw [readerEv_frame ok ch hb e hf]
+        cases hd : deliverFrameEv ok ch c f with
+        | none => exact h
+        | some p =>
+          obtain ⟨c', ch'⟩ := p
+          have := readFrame_rest_lt hf
+          exact ih rest (by omega) ch' c' (inv_deliverFrameEv h hd)
+      · have hstop : ∀ f rest, readFrame b ≠ .frame f rest := fun f rest hf => hfr ⟨f, rest, hf⟩
+        rw [readerEv_stop ok ch hb e hstop]; exact inv_readerStop h _ _
+
+/-- The reader of a connection with an event sender stopped because it is parked in `event_sender.send(..).await`:
+the router has NOT ended, and the next thing in its buffer is a well-formed event for which the (still open) event
+channel has no room. -/
+def Parked (ok : Frame → Bool) (r : Conn × List UInt8 × EvChan) : Prop :=
+  r.1.broken = false ∧ ∃ f rest, readFrame r.2.1 = .frame f rest ∧ f.stream = -1 ∧ ok f = true ∧
+    r.2.2.closed = false ∧ r.2.2.room = 0
+
+theorem readerStop_eof_broken (c : Conn) (r : ReadRes) (h : ∀ f rest, r ≠ .frame f rest) :
+    (readerStop c r true).broken = true := by
+  unfold readerStop
+  cases r with
+  | frame f rest => exact absurd rfl (h f rest)
+  | bad w => exact break_sets_broken _ _
+  | empty => simp [break_sets_broken]
+  | cutInHeader n => simp [break_sets_broken]
+  | cutInBody m l => simp [break_sets_broken]
+
+/-- After the peer has closed, the reader of a connection with an event sender has either ended the router, or it is
+parked on a full event channel — there is no third state. -/
+theorem readerEv_eof (ok : Frame → Bool) :
+    ∀ (n : Nat) (b : List UInt8), b.length ≤ n → ∀ (ch : EvChan) (c : Conn),
+      (readerEv ok ch c b true).1.broken = true ∨ Parked ok (readerEv ok ch c b true) := by
+  intro n
+  induction n with
+  | zero =>
+    intro b hn ch c
+    cases hb : c.broken with
+    | true => rw [readerEv_broken ok ch hb]; exact .inl hb
+    | false =>
+      have hstop : ∀ f rest, readFrame b ≠ .frame f rest := by
+        intro f rest hf; have := readFrame_rest_lt hf; omega
+      rw [readerEv_stop ok ch hb true hstop]; exact .inl (readerStop_eof_broken _ _ hstop)
+  | succ n ih =>
+    intro b hn ch c
+    cases hb : c.broken with
+    | true => rw [readerEv_broken ok ch hb]; exact .inl hb
+    | false =>
+      by_cases hfr : ∃ f rest, readFrame b = .frame f rest
+      · obtain ⟨f, rest, hf⟩ := hfr
+        rw [readerEv_frame ok ch hb true hf]
+        cases hd : deliverFrameEv ok ch c f with
+        | none =>
+          obtain ⟨h1, _, h3, h4, h5⟩ := deliverFrameEv_none hd
+          exact .inr ⟨hb, f, rest, hf, h1, h3, h4, h5⟩
+        | some p =>
+          obtain ⟨c', ch'⟩ := p
+          have := readFrame_rest_lt hf
+          exact ih rest (by omega) ch' c'
+      · have hstop : ∀ f rest, readFrame b ≠ .frame f rest := fun f rest hf => hfr ⟨f, rest, hf⟩
+        rw [readerEv_stop ok ch hb true hstop]; exact .inl (readerStop_eof_broken _ _ hstop)
+
+theorem deliverFrameEv_room {ok : Frame → Bool} {ch ch' : EvChan} {c c' : Conn} {f : Frame}
+    (hd : deliverFrameEv ok ch c f = some (c', ch')) : ch.room ≤ ch'.room + 1 := by
+  unfold deliverFrameEv at hd
+  split at hd
+  · split at hd
+    · cases hd; omega
+    · split at hd
+      · cases hd; omega
+      · split at hd
+        · cases hd; omega
+        · split at hd
+          · cases hd
+          · cases hd; simp only; omega
+  · cases hd; omega
+
+/-- With enough room in the event channel (a slot for every event the bytes can hold - a consumer that keeps up) the
+reader is never parked: after the peer has closed the router has ended. -/
+theorem readerEv_eof_room (ok : Frame → Bool) :
+    ∀ (n : Nat) (b : List UInt8), b.length ≤ n → ∀ (ch : EvChan) (c : Conn), b.length ≤ ch.room →
+      (readerEv ok ch c b true).1.broken = true := by
+  intro n
+  induction n with
+  | zero =>
+    intro b hn ch c _
+    cases hb : c.broken with
+    | true => rw [readerEv_broken ok ch hb]; exact hb
+    | false =>
+      have hstop : ∀ f rest, readFrame b ≠ .frame f rest := by
+        intro f rest hf; have := readFrame_rest_lt hf; omega
+      rw [readerEv_stop ok ch hb true hstop]; exact readerStop_eof_broken _ _ hstop
+  | succ n ih =>
+    intro b hn ch c hroom
+    cases hb : c.broken with
+    | true => rw [readerEv_broken ok ch hb]; exact hb
+    | false =>
+      by_cases hfr : ∃ f rest, readFrame b = .frame f rest
+      · obtain ⟨f, rest, hf⟩ := hfr
+        rw [readerEv_frame ok ch hb true hf]
+        have hlt := readFrame_rest_lt hf
+        cases hd : deliverFrameEv ok ch c f with
+        | none =>
+          obtain ⟨_, _, _, _, h5⟩ := deliverFrameEv_none hd
+          omega
+        | some p =>
+          obtain ⟨c', ch'⟩ := p
+          have := deliverFrameEv_room hd
+          exact ih rest (by omega) ch' c' (by omega)
+      · have hstop : ∀ f rest, readFrame b ≠ .frame f rest := fun f rest hf => hfr ⟨f, rest, hf⟩
+        rw [readerEv_stop ok ch hb true hstop]; exact readerStop_eof_broken _ _ hstop
+
 end ScyllaVerif.ConnIO
